@@ -142,3 +142,17 @@ Theorem C03_mapor_nk_merge_is_union (H : list (oprec (mop oop))) :
   mmerge orswot_valops s1 s2 = s.
 Proof. exact (mapor_merge_is_union_nk H). Qed.
 Print Assumptions C03_mapor_nk_merge_is_union.
+
+(** Map<K1, Map<K2, Orswot>> when no key is ever removed: merging = having learned the union of the ops (proofs/MapMapOrswotNK.v) *)
+From Crdt Require Import model.Orswot model.Map spec.System spec.OrswotSpec spec.OrswotSystem spec.MapSpec spec.MapSystem spec.MapOrswotSpec spec.MapMapOrswotSpec spec.MapMapOrswotNKSpec proofs.MapMapOrswotNK.
+Theorem C03_map2_nk_merge_spec (H : list (oprec (mop (mop oop)))) :
+  m2hist_ok_nk H -> forall (s1 : cmap (cmap orswot)) (K1 : gset nat) (s2 : cmap (cmap orswot)) (K2 : gset nat),
+  m2reach_nk H s1 K1 -> m2reach_nk H s2 K2 -> mmerge vo2 s1 s2 = map2_spec_nk H (K1 ∪ K2).
+Proof. exact (map2_merge_spec_nk H). Qed.
+Print Assumptions C03_map2_nk_merge_spec.
+
+Theorem C03_map2_nk_merge_is_union (H : list (oprec (mop (mop oop)))) :
+  m2hist_ok_nk H -> forall (s1 : cmap (cmap orswot)) (K1 : gset nat) (s2 : cmap (cmap orswot)) (K2 : gset nat) (s : cmap (cmap orswot)) (K : gset nat),
+  m2reach_nk H s1 K1 -> m2reach_nk H s2 K2 -> m2reach_nk H s K -> K = K1 ∪ K2 -> mmerge vo2 s1 s2 = s.
+Proof. exact (map2_merge_is_union_nk H). Qed.
+Print Assumptions C03_map2_nk_merge_is_union.
